@@ -109,8 +109,7 @@ def thorough_extra(prop, module, ctx):
             c2 = Ctx(prop, "thorough", f2)
             module.run(c2)
             for o in c2.obs:
-                o.instance = o.instance + " [-UNDEBUG]"
-                o.key = o.key + " [-UNDEBUG]"
+                o.instance = o.instance + " [-UNDEBUG]"     # the key stays: a known finding is the same finding in both configurations
                 ctx.obs.append(o)
             for r, t in c2.rules.items():
                 ctx.rules.setdefault(r, t)
